@@ -236,6 +236,33 @@ def alignment_arithmetic(ctx, rep, rule: str, classes: list[str]) -> None:
         rep.ob(rule, f"alignment:{ci.name}", ok, fi.loc(), detail, sample=True)
 
 
+def state_mesh_layout(ctx, rep, rule: str) -> None:
+    """A block's state is allocated on the ranks that have the block's owner index in their communication group — the same
+    indexing the ownership selector uses.  DDP: ranks {r : r = owner (mod group size), r < world size}.  HSDP / HybridShard:
+    the replicate-dimension ranks laid out as rows of `dist_group_size` (the layout __init__ uses for the communication
+    groups), dimension names ("replicate", "shard"), the owner-th sub-mesh along "replicate"."""
+    repo = ctx.repo
+    ddp = repo.cls(COPIES[0])
+    fi = repo.lookup_method(ddp, "_allocate_zeros_distributed_tensor")
+    rngs = [c for c in A.calls(fi.node, nested=True) if isinstance(c.func, ast.Name) and c.func.id == "range"]
+    ok = len(rngs) == 1 and len(rngs[0].args) == 3 and [A.expanded(fi.node, a) for a in rngs[0].args] == ["group_source_rank % self._group_size", "self._global_size", "self._group_size"]
+    rep.ob(rule, "state-mesh:DDPDistributor", ok, fi.loc(rngs[0]) if rngs else fi.loc(), f"state mesh ranks = `{_norm(rngs[0]) if rngs else '?'}`; documented: range(owner % group_size, world_size, group_size) — one rank of every group, the owner's index in it", sample=True)
+    for cq in COPIES[1:]:
+        ci = repo.cls(cq)
+        fi = repo.lookup_method(ci, "_allocate_zeros_distributed_tensor")
+        init = repo.lookup_method(ci, "__init__")
+        views = [c for c in A.calls(fi.node, nested=True) if isinstance(c.func, ast.Attribute) and c.func.attr == "view"]
+        names = [k.value for c in A.calls(fi.node, nested=True) for k in c.keywords if k.arg == "mesh_dim_names"]
+        subs = [n for n in ast.walk(fi.node) if isinstance(n, ast.Subscript) and isinstance(n.value, ast.Call) and A.callee_name(repo, fi.module, n.value).endswith("_get_all_submeshes")]
+        view_ok = len(views) == 1 and [A.expanded(fi.node, a) for a in views[0].args] == ["-1", "self._dist_group_size"]
+        names_ok = len(names) == 1 and _norm(names[0]) == "('replicate', 'shard')"
+        sub_ok = len(subs) == 1 and len(subs[0].value.args) == 2 and _norm(subs[0].value.args[1]) == "'replicate'" and A.expanded(fi.node, subs[0].slice) == "group_source_rank"
+        # __init__ forms the communication groups from the same row layout
+        init_views = [c for c in A.calls(init.node, nested=True) if isinstance(c.func, ast.Attribute) and c.func.attr == "view" and len(c.args) == 2]
+        init_ok = any([A.expanded(init.node, a) for a in c.args] == ["-1", "self._dist_group_size"] for c in init_views)
+        rep.ob(rule, f"state-mesh:{ci.name}", view_ok and names_ok and sub_ok and init_ok, fi.loc(views[0]) if views else fi.loc(), f"replicate ranks viewed as (-1, dist_group_size): {view_ok}; dimension names ('replicate', 'shard'): {names_ok}; owner-th sub-mesh along 'replicate': {sub_ok}; same row layout as the communication groups in __init__: {init_ok}", sample=True)
+
+
 def run(ctx, rep) -> None:
     rep.rule("C14.5", "aligned buffer size = smallest multiple of 64 that is >= the block's byte size (complete residue system)")
     rep.attempt("alignment_arithmetic", alignment_arithmetic, ctx, rep, "C14.5", COPIES)
@@ -245,6 +272,7 @@ def run(ctx, rep) -> None:
     rep.rule("C14.4", "per-block buffers are views of the one gather buffer; the local send buffer is the rank's own split; size expressions agree")
     rep.attempt("assignment_determinism", assignment_determinism, ctx, rep, "C14.1", COPIES)
     rep.attempt("ownership", ownership, ctx, rep, "C14.2", COPIES)
+    rep.attempt("state_mesh_layout", state_mesh_layout, ctx, rep, "C14.2")
     rep.attempt("sibling_pairs", sibling_pairs, ctx, rep, "C14.3", dist_pairs())
     rep.attempt("buffer_views", buffer_views, ctx, rep, "C14.4", COPIES)
     rep.assume("the 4/3 bound, load-difference bound, 64-byte alignment arithmetic and non-overlap of offsets (integer arithmetic over all size sequences) are NOT decided")
